@@ -31,7 +31,7 @@ ASSUMPTIONS = [
 
 
 def strategy(tier):
-    return hist_common.st_history_case(tier, tfrec_weight=1)
+    return hist_common.st_history_case(tier, tfrec_weight=1, var_attr=True)
 
 
 def run_case(case, ctx):
